@@ -14,7 +14,8 @@ lib/gen_Conn.py (TcpConnection::sendInLoop) and lib/gen_C11.py (Acceptor::handle
    value is captured (the copy's declaration, or the condition itself for a direct read).
    Strengthened after REVIEW_E E-6: not only a log statement - ANY call, constructor, new or delete other than
    `__errno_location()` itself on that path makes the fact false (a `::close(-1)` or a helper that logs, placed
-   between the system call and the capture, may change errno as well).  The fact stays INTRA-procedural: what the
+   between the system call and the capture, may change errno as well); after REVIEW_F F-3 also any STORE to errno
+   (`errno = 0;`) on that path, in all three facts.  The fact stays INTRA-procedural: what the
    callee that wraps the system call does after it (sockets::accept, Socket::accept) is the business of
    `restores_errno_after` / `only_success_calls_after` below."""
 import copy
@@ -111,6 +112,25 @@ def _on_path(par, x, p):
     return True
 
 
+def errno_stores(root):
+    """every node under root that stores to errno: `errno = ..`, a compound assignment, ++/-- (REVIEW_F F-3 b)"""
+    res = []
+    for m in cxxast.walk(root):
+        k = m.get("kind")
+        if k in ("BinaryOperator", "CompoundAssignOperator") and (m.get("opcode") == "=" or k == "CompoundAssignOperator") and kids(m) and is_errno(kids(m)[0]):
+            res.append(m)
+        elif k == "UnaryOperator" and m.get("opcode") in ("++", "--") and kids(m) and is_errno(kids(m)[0]):
+            res.append(m)
+    return res
+
+
+def _disturbers(fn, inside):
+    """nodes whose execution may change errno: calls / constructions / new / delete other than __errno_location(), and
+    stores to errno"""
+    return [m for m in cxxast.walk(fn) if m.get("kind") in CALL_KINDS and id(m) not in inside and _callee(m) != "__errno_location"] + \
+        [m for m in errno_stores(fn) if id(m) not in inside]
+
+
 CALL_KINDS = ("CallExpr", "CXXMemberCallExpr", "CXXOperatorCallExpr", "CXXConstructExpr", "CXXTemporaryObjectExpr", "CXXNewExpr", "CXXDeleteExpr")
 
 
@@ -122,10 +142,15 @@ def _callee(m):
 
 
 def restores_errno_after(fn, syscall, switch_groups_nonfatal):
-    """a wrapper that logs after its system call (sockets::accept): true iff (1) errno is copied right after the system
-    call - no call on the path between it and the copy's declaration -, (2) every given switch group (the classes after
-    which the caller carries on) consists of exactly `errno = <that copy>; break;`, and (3) nothing but `return <var>;`
-    follows the switch / the if that contains it"""
+    """a wrapper that logs after its system call (sockets::accept): true iff
+    (1) errno is copied right after the system call - nothing that may change errno (call, construction, store to errno)
+        on the path between it and the copy's declaration;
+    (2) every given switch group (the classes after which the caller carries on) consists of exactly
+        `errno = <that copy>; break;`, and these restores are the ONLY stores to errno in the function;
+    (3) nothing that may change errno can run after a restore: every statement that follows the switch - in its own
+        compound statement and, going outwards, in every enclosing compound statement up to the function body - is free
+        of calls, constructions and stores to errno (REVIEW_F F-3 a: not only the last statement);  the last statement of
+        the function is a `return`."""
     par = _parents(fn)
     copies = errno_copies(fn)
     if len(copies) != 1:
@@ -137,11 +162,13 @@ def restores_errno_after(fn, syscall, switch_groups_nonfatal):
     first = min((c for c in calls if _offset(c) is not None), key=_offset)
     w, po = _offset(first), _offset(cp)
     inside = {id(m) for m in cxxast.walk(first)}
-    for m in cxxast.walk(fn):
-        if m.get("kind") in CALL_KINDS and id(m) not in inside and _callee(m) != "__errno_location":
-            o = _offset(m)
-            if o is not None and w < o < po and _on_path(par, m, cp):
-                return False
+    for m in _disturbers(fn, inside):
+        o = _offset(m)
+        if o is None:
+            raise cxxast.Untranslatable("no source offset")
+        if w < o < po and _on_path(par, m, cp):
+            return False
+    restores = []
     for body in switch_groups_nonfatal:
         st = [x for x in body if x.get("kind")]
         if len(st) != 2 or st[1].get("kind") != "BreakStmt":
@@ -150,8 +177,24 @@ def restores_errno_after(fn, syscall, switch_groups_nonfatal):
         if not (a.get("kind") == "BinaryOperator" and a.get("opcode") == "=" and is_errno(kids(a)[0])
                 and (cxxast.strip(kids(a)[1]).get("referencedDecl", {}) or {}).get("id") == cp.get("id")):
             return False
+        restores.append(a)
+    if any(not any(x is r for r in restores) for x in errno_stores(fn)):
+        return False
+    sw = [m for m in cxxast.walk(fn) if m.get("kind") == "SwitchStmt"]
+    if len(sw) != 1:
+        return False
+    node = sw[0]
+    while id(node) in par:
+        up = par[id(node)]
+        if up.get("kind") == "CompoundStmt":
+            sib = kids(up)
+            i = next(j for j, x in enumerate(sib) if x is node)
+            for later in sib[i + 1:]:
+                if _disturbers(later, set()):
+                    return False
+        node = up
     top = kids(cxxast.body(fn))
-    return bool(top) and top[-1].get("kind") == "ReturnStmt" and not any(m.get("kind") in CALL_KINDS for m in cxxast.walk(top[-1]))
+    return bool(top) and top[-1].get("kind") == "ReturnStmt"
 
 
 def only_success_calls_after(fn, callee_name, okvar):
@@ -163,8 +206,8 @@ def only_success_calls_after(fn, callee_name, okvar):
         raise cxxast.Untranslatable("%d calls of %s" % (len(calls), callee_name))
     w = _offset(calls[0])
     inside = {id(m) for m in cxxast.walk(calls[0])}
-    for m in cxxast.walk(fn):
-        if m.get("kind") in CALL_KINDS and id(m) not in inside and (_offset(m) or 0) > w:
+    for m in _disturbers(fn, inside):
+        if (_offset(m) or 0) > w:
             ok = False
             ch = _chain(par, m)
             for i, a in enumerate(ch):
@@ -192,7 +235,7 @@ def tests_saved_errno(fn, syscall, conds):
     first = min((c for c in calls if _offset(c) is not None), key=_offset)      # the first one in the source
     w = _offset(first)
     inside = {id(m) for m in cxxast.walk(first)}                            # its own arguments are evaluated before it runs
-    loggers = [m for m in cxxast.walk(fn) if m.get("kind") in CALL_KINDS and id(m) not in inside and _callee(m) != "__errno_location"]
+    loggers = _disturbers(fn, inside)      # (the name is historical: calls of every kind AND stores to errno, REVIEW_F F-3 b)
     seen_errno_read = False
     for cond in conds:
         points = []
